@@ -30,7 +30,11 @@ def static_type(t, schema):
     if k == "call":
         ret = RETURNS.get(t[1])
         if ret == "arg":
-            return static_type(t[2][0], schema)
+            first = static_type(t[2][0], schema) if t[2] else None
+            if first is None and t[1] == "concat" and len(t[2]) == 2:
+                # both operands of concat have ONE type: the second pins it when the first is unknown
+                return static_type(t[2][1], schema)
+            return first
         return ret
     if k == "lam":
         return "bool"
